@@ -527,14 +527,14 @@ CO_ERR COSdoDownloadSegmented(CO_SDO *srv)
         return (CO_ERR_SDO_ABORT);
     }
 
-    n = ((cmd >> 1) & 0x07);
-    if (n == 0) {
-        num = srv->Seg.Size - srv->Seg.Num;
-        if (num > 7) {
-            num = 7;
-        }
-    } else {
-        num = 7 - n;
+    n   = ((cmd >> 1) & 0x07);
+    num = 7 - n;
+    if (num > (srv->Seg.Size - srv->Seg.Num)) {
+        /* more data than the object (or the indicated size) can take */
+        srv->Seg.Size = 0;
+        srv->Seg.Num  = 0;
+        COSdoAbort(srv, CO_SDO_ERR_LEN_HIGH);
+        return (CO_ERR_SDO_ABORT);
     }
 
     bid = 1;
@@ -646,6 +646,13 @@ CO_ERR COSdoEndDownloadBlock(CO_SDO *srv)
         if ((uint32_t)n > srv->Buf.Num) {
             /* more unused bytes indicated than data is buffered */
             result = CO_ERR_OBJ_SIZE;
+        } else if ((srv->Buf.Num > 0u) && ((7u - n) > srv->Blk.LastValid)) {
+            /* last segment holds more data than the object can take */
+            srv->Blk.State = BLK_IDLE;
+            srv->Buf.Cur   = srv->Buf.Start;
+            srv->Buf.Num   = 0;
+            COSdoAbort(srv, CO_SDO_ERR_LEN_HIGH);
+            return (CO_ERR_SDO_ABORT);
         } else {
             len    = ((uint32_t)srv->Buf.Num - n);
             result = COObjWrBufCont(srv->Obj, srv->Node, srv->Buf.Start, len);
@@ -684,6 +691,8 @@ CO_ERR COSdoDownloadBlock(CO_SDO *srv)
          */
         if ((srv->Blk.Len > 0) &&
             (srv->Buf.Num <= (uint32_t)(CO_SDO_BUF_BYTE - 7))) {
+            /* bytes of this segment, which the object can take */
+            srv->Blk.LastValid = (srv->Blk.Len >= 7u) ? 7u : (uint8_t)srv->Blk.Len;
             for (i = 0; i < 7; i++) {
                 *(srv->Buf.Cur) = CO_GET_BYTE(srv->Frm, 1 + i);
                 srv->Buf.Cur++;
